@@ -30,7 +30,7 @@ CONFIG = {
             "net/http header map access (header[key]) is modelled as the list of header lines",
         ],
         "assumptions": ["strings are compared bytewise; the harness feeds header lines directly into http.Header (no wire parsing)"],
-        "partial": ["T5 (monotonicity of q in the digit string) and T6 (API-level 406) are not yet theorems"],
+        "partial": ["T6 (API-level 406) is proved in C08 (`not_acceptable_is_406`), not here"],
     },
 }
 
